@@ -170,13 +170,13 @@ fn pick_addr(r: &mut Rng) -> SocketAddr {
     }
 }
 
-fn gen_spec(idx: u64) -> Spec {
+fn gen_spec(idx: u64, thorough: bool) -> Spec {
     let mut r = Rng::new(mix(&[0xC38, idx]));
     let r = &mut r;
     // source list: empty, short, and (rarely) long
     let n_src = match idx % 12 {
         0 => 0,
-        11 => 40 + r.below(60) as usize,
+        11 => if thorough { 40 + r.below(60) as usize } else { 14 + r.below(12) as usize },
         _ => r.below(6) as usize,
     };
     let n_srv = match idx % 5 {
@@ -491,7 +491,7 @@ fn cases_of(total: usize) -> u64 {
 }
 
 fn n_states(thorough: bool) -> u64 {
-    let d = if thorough { 2400 } else { 96 };
+    let d = if thorough { 600 } else { 72 };
     std::env::var("VERIF_C38_STATES").ok().and_then(|s| s.parse().ok()).unwrap_or(d)
 }
 
@@ -503,7 +503,7 @@ fn table(thorough: bool) -> &'static Table {
         let mut total = vec![];
         let mut start = vec![0u64];
         for i in 0..n_states(thorough) {
-            let mut spec = gen_spec(i);
+            let mut spec = gen_spec(i, thorough);
             let v = build(&mut spec);
             // sizing only: the bytes judged in a run are produced by the real write_json inside that run
             let len = 8 + serde_json::to_vec(&v).map(|b| b.len()).unwrap_or(0);
@@ -596,10 +596,10 @@ pub fn run() {
     simntp::reset_hooks();
     let thorough = simkit::thorough();
     let (sidx, total_expected, case) = locate(thorough, simkit::run_index());
-    let mut spec = gen_spec(sidx);
+    let mut spec = gen_spec(sidx, thorough);
     let value = build(&mut spec);
     compare(&spec, &value, false);
-    ev!("c38 state={sidx} sources={} servers={} case={case:?}", spec.sources.len(), spec.servers.len());
+    ev!("c38 state={sidx} sources={} servers={} framed={total_expected} case={case:?} (of {} cases)", spec.sources.len(), spec.servers.len(), enumerate(thorough));
 
     let spec2 = spec.clone();
     exec::block_on(async move {
@@ -675,7 +675,7 @@ pub fn run() {
                     let v = build(&mut spec_w);
                     let r = write_json(&mut w, &v).await;
                     *wres2.borrow_mut() = Some(r);
-                    // keep the stream open until the reader is done (the daemon closes after writing; EOF cases cover that)
+                    // like the daemon: the connection is closed right after the message
                     drop(w);
                 });
                 wait_done(&done).await;
